@@ -390,14 +390,15 @@ func TestC12Lookback(t *testing.T) {
 	enum.Frozen(t, func() {
 		base := time.Now()
 		b := base.Unix()
-		total := len(hists) * len(layouts) * 2
+		total := len(hists) * len(layouts) * 3 // zone-unaware without labels | zone-aware | zone-unaware over labelled instances
 		ok := enum.Par(total, deadline, func() bool { return rep.NumViolations() >= 10 }, func(ix int) {
 			h := hists[ix%len(hists)]
 			lay := layouts[ix/len(hists)%len(layouts)]
 			za := ix/len(hists)/len(layouts) == 1
+			labelled := ix/len(hists)/len(layouts) == 2
 			mk := func(i int, reg int64) inst {
 				z := ""
-				if za {
+				if za || labelled {
 					z = string(rune('a' + i%2))
 				}
 				in := inst{id: fmt.Sprintf("i%d", i), zone: z, regTS: reg, tokens: []uint32{tokAlpha[lay[i]], tokAlpha[lay[i+6]]}}
